@@ -6,7 +6,9 @@ so one constructed application serves a whole history of differently-faulted
 requests.  Everything a harness function observes is recorded per request
 sequence number (thread-local), so concurrent requests stay attributable.
 """
+import sys
 import threading
+import types
 
 from clastic import Middleware, Response
 from clastic import errors as cerrors
@@ -52,6 +54,10 @@ class Recorder(object):
         self.raised = {}      # seq -> [exception objects created by the harness]
         self.created = {}     # seq -> [objects created by harness functions in that request]
         self.positional = set()   # middleware functions that call next() positionally
+        self.seq_imports = set()  # requests whose harness functions each do a first-time import (application code importing lazily)
+        for k in [k for k in sys.modules if k.startswith('sim_lazy_mod_')]:
+            del sys.modules[k]
+        self.n_lazy = 0
         self.lock_free_counter = 0
 
     @property
@@ -82,6 +88,13 @@ class Recorder(object):
 
     def record(self, name, kwargs):
         self.calls.setdefault(self.seq, []).append((name, kwargs))
+        if self.seq in self.seq_imports:
+            # what `import some_module` inside a function does the first time: the table of loaded modules grows
+            self.n_lazy += 1
+            name = 'sim_lazy_mod_%d' % self.n_lazy
+            mod = types.ModuleType(name)
+            mod.__version__ = '1.%d' % self.n_lazy
+            sys.modules[name] = mod
 
     def prov(self, fname, pname):
         return ('prov', self.seq, fname, pname)
